@@ -2,11 +2,11 @@ INIT Init
 NEXT Next
 VIEW view
 CONSTANTS
-  PNorm <- AlphaWild
-  PLit <- LitCore
+  PNorm <- AlphaSh
+  PLit <- LitSh
   PMacro <- NoChars
   PLen = 3
-  SAlpha <- StrSmall
+  SAlpha <- StrTiny
   SLen = 3
   Kind = "shell"
 INVARIANT Emit
